@@ -264,21 +264,58 @@ theorem T_C18 (v : Variant) (attr : Toks) (item : Item) (out : Out)
       Item.attrs, List.all_cons, List.all_nil, Bool.and_true, Bool.true_and, Bool.and_eq_true]
     rw [him]; exact ⟨implAttrs_ok _, implMembers_ok _ _ _ _ hf⟩
   | trait t =>
-    obtain ⟨a0, fns, delegation, _, h2, _, rfl⟩ := expandTrait_ok h
+    obtain ⟨a0, fns, delegation, _, h2, h3, rfl⟩ := expandTrait_ok h
     have hf := analyzeTraitMembers_ok _ _ h2
     have himpl := mainImpl_last [] [] ([GenItem.trait (genTraitDef (v.apply a0.opts) .trait .generic t.attrs t.vis t.ident
         (traitTg t) (traitSup t) fns .rawTrait)] ++ delegation) (traitImplBlock { a0 with opts := v.apply a0.opts } t fns)
-    simp only [P_C18, Out.view, Out.inside, Out.after, himpl]
-    simp only [traitImplBlock, zipAll_map_right]
-    rw [hf, zipAll_map_right]
-    clear himpl hf h2 h
-    simp only [TraitItem.fns]
-    generalize t.members.filterMap TraitMember.fn? = fs
-    induction fs with
-    | nil => rfl
-    | cons f rest ih =>
-      simp only [zipAll, Bool.and_eq_true]
-      exact ⟨by simp [delegationMethod, traitFnOf, GenMember.attrs], ih⟩
+    simp only [P_C18, Out.view, Out.inside, Out.after, himpl, Bool.and_eq_true]
+    constructor
+    · simp only [traitImplBlock, zipAll_map_right]
+      rw [hf, zipAll_map_right]
+      clear himpl hf h2 h h3
+      simp only [TraitItem.fns]
+      generalize t.members.filterMap TraitMember.fn? = fs
+      induction fs with
+      | nil => rfl
+      | cons f rest ih =>
+        simp only [zipAll, Bool.and_eq_true]
+        exact ⟨by simp [delegationMethod, traitFnOf, GenMember.attrs], ih⟩
+    · -- the re-emitted trait and the delegation-target traits
+      have hmain : ∀ (o : Opts) (ind : TraitIndirection) (subs : List Attr) (vis : Toks) (id : String) (tg : TraitGenerics)
+          (sup : Supertraits) (g : TraitFn → TraitFn) (hg : ∀ tf, (g tf).attrs = tf.attrs),
+          zipAll (fun (srcFn : TraitFnItem) (m : GenMember) => m.attrs == srcFn.attrs) t.fns
+            ((genTraitDef o ind .generic subs vis id tg sup (fns.map g) .rawTrait).members.filter GenMember.isFn) = true := by
+        intro o ind subs vis id tg sup g hg
+        simp only [genTraitDef, List.map_map]
+        rw [hf]
+        simp only [TraitItem.fns, List.map_map]
+        generalize t.members.filterMap TraitMember.fn? = fs
+        induction fs with
+        | nil => rfl
+        | cons f rest ih =>
+          simp only [List.map_cons, Function.comp, List.filter_cons, GenMember.isFn, if_true, zipAll, Bool.and_eq_true]
+          exact ⟨by simp [GenMember.attrs, hg, traitFnOf], ih⟩
+      have hstat : ∀ tf, (staticImplFn tf).attrs = tf.attrs := by
+        intro tf; unfold staticImplFn; split <;> rfl
+      have hdyn : ∀ tf, (dynamicImplFn tf).attrs = tf.attrs := by
+        intro tf; unfold dynamicImplFn; split <;> rfl
+      have hid := hmain (v.apply a0.opts) .trait t.attrs t.vis t.ident (traitTg t) (traitSup t) id (fun _ => rfl)
+      simp only [List.map_id_fun, id_eq] at hid
+      simp only [View.items, List.nil_append, List.cons_append, traitsOf_append, traitsOf, List.append_nil, List.all_cons,
+        Bool.and_eq_true, Bool.or_eq_true]
+      refine ⟨Or.inr hid, ?_⟩
+      -- the delegation items
+      unfold genDelegationTraitDefs at h3
+      split at h3
+      · cases h3; rfl
+      · split at h3
+        · cases h3
+          simp only [traitsOf, List.all_cons, List.all_nil, Bool.and_true, Bool.and_eq_true, Bool.or_eq_true]
+          exact ⟨Or.inr (hmain _ _ _ _ _ _ _ staticImplFn hstat), Or.inl rfl⟩
+        · cases h3
+          simp only [traitsOf, List.all_cons, List.all_nil, Bool.and_true, Bool.or_eq_true]
+          exact Or.inr (hmain _ _ _ _ _ _ _ dynamicImplFn hdyn)
+        · cases h3
 
 /-- non-vacuity: `mod m { #[cfg(any())] #[inline] pub fn a(d: &impl X) {} pub fn c(d: &impl X) {} }` — the trait
     method and the delegating method of `a` carry `#[cfg(any())]` and not `#[inline]`, those of `c` nothing -/
@@ -289,5 +326,14 @@ example :
         (implsOf out.view.items).map (fun m => m.members.map GenMember.attrs)
      | _ => []) =
     [[[⟨[i "cfg", parens [i "any", parens []]]⟩], []], [[⟨[i "cfg", parens [i "any", parens []]]⟩], []]] := by decide +kernel
+
+/-- the recorded defect `C18.cfgattr`, in the model as in the macro: a function disabled through
+    `#[cfg_attr(all(), cfg(any()))]` keeps its trait method and delegating method (nothing is mirrored), so the
+    full last clause of the property ("cfg-disabled functions .. do not leave a dangling trait method behind")
+    fails for it although `P_C18` — which speaks about plain `cfg` attributes — holds -/
+theorem C18_cfgattr_witness :
+    (match expand .plain [i "Foo"] (.mod_ Examples.modCfgAttr) with
+     | .ok out => F_C18_cfgattr (.mod_ Examples.modCfgAttr) out.view && P_C18 (.mod_ Examples.modCfgAttr) out.view
+     | _ => false) = true := by decide +kernel
 
 end Entrait.C18
